@@ -321,3 +321,34 @@ def c08_5(R):
         R.fail([poll.name, "no-Ready(Ok)-under(state_is_closed)"], "the connection task no longer ends when the state is closed", where=poll.where(), instance="closed=>task-ends")
     ic = R.body("stream_dispatch::VirtualSocketState::is_closed")
     R.ok("is_closed-present", ic.name)
+
+
+@rule("C08.6", ["C08", "C12", "C17", "C13"], ["E2"], "a connection object is built only when it will be handed over or disarmed",
+      "UtpStreamStarter::new arms a drop guard that posts Shutdown(recv_key) when the object dies. In Dispatcher::match_syn_with_accept and on_maybe_connect_ack every exit that is reachable "
+      "after the starter was built passes the hand-over (the oneshot send to the acceptor / connector) - whose failure branch disarms it (C08.2). An early return between construction and "
+      "hand-over - a clash check moved behind the construction - drops an armed starter whose key belongs to a LIVE connection: its Shutdown unregisters that connection.")
+def c08_6(R):
+    from utpsa.flow import must_pass_blocks
+    n = 0
+    for fn in ("socket::Dispatcher::match_syn_with_accept", "socket::Dispatcher::on_maybe_connect_ack"):
+        b = R.body(fn)
+        news = [t for t in b.calls() if call_matches(t, ("stream_dispatch::UtpStreamStarter::new",))]
+        R.require(len(news) == 1, "UtpStreamStarter::new in " + fn)
+        nw = news[0]
+        hand = set()
+        for t in b.calls():
+            r = t.resolved or t.callee or ""
+            if r.endswith("::send") and len(t.args) >= 2 and point_reaches(b, nw, t):
+                a = trace(b, t.args[1])
+                if (a.kind == "call" and a.root[1] is nw) or any(isinstance(st, Term) and st is nw for st in a.steps):
+                    hand.add(t.bb)
+            if call_matches(t, ("stream_dispatch::UtpStreamStarter::disarm", "stream_dispatch::UtpStreamStarter::start")) and point_reaches(b, nw, t):
+                hand.add(t.bb)  # disarmed, or started: the running connection task owns the guard from then on
+        n += 1
+        ok, bad = must_pass_blocks(b, b.return_blocks(), hand, start=nw.j["target"]) if hand else (False, [])
+        if hand and ok:
+            R.ok("built=>handed-over-or-disarmed", fn, "every exit after UtpStreamStarter::new passes the hand-over")
+        else:
+            R.fail([fn, "exit-after(UtpStreamStarter::new)-without-hand-over"], "%s can return after building the connection object without handing it to the acceptor / connector or disarming it: the armed "
+                   "drop guard then posts Shutdown for a key that may belong to a live connection, which is unregistered" % fn.split("::")[-1], where=nw.where(), instance="built=>handed-over-or-disarmed")
+    R.floor("functions that build a UtpStreamStarter", n, 2)
